@@ -238,6 +238,58 @@ def client_coding_choice():
     return cases, bad
 
 
+def async_client_coding_choice():
+    """SoapClientAsync.async_post_message_to (notifications of the asynchronous subscription manager): the request
+    coding, if any, is enabled locally and acceptable to the peer. request_encodings is given both ways the library
+    supplies it: as a list of acceptable codings and as the raw Accept-Encoding header of the Subscribe request (that is
+    what the asynchronous manager passes on)."""
+    import asyncio
+    from sdc11073.pysoap import soapclient_async
+    cases, bad = 0, []
+    avail = list(compression.CompressionHandler.available_encodings)
+    sups = [[], avail[:1], avail[-1:], list(avail)]
+    reqs = [[], avail[:1], list(reversed(avail)), ['br'] + avail[:1],
+            ','.join(avail), avail[0] + ';q=0', 'identity, ' + avail[-1] + ';q=0', avail[0] + ';q=0, ' + avail[-1] + ';q=0.5',
+            'br;q=1, ' + avail[0] + ';q=0.0', avail[0]]
+    for req, sup in itertools.product(reqs, sups):
+        cases += 1
+        sent = {}
+
+        class Resp:
+            status, reason = 200, 'Ok'
+
+            async def text(self):
+                return ''
+
+            async def __aenter__(self):
+                return self
+
+            async def __aexit__(self, *a):
+                return False
+
+        class Conn:
+            def post(self, path, data=None, headers=None):
+                sent['headers'] = dict(headers)
+                sent['body'] = data
+                return Resp()
+        msg = types.SimpleNamespace(p_msg=None, serialize=lambda request_manipulator=None: b'<?xml version="1.0" encoding="utf-8"?><x/>' * 5)
+        fake = types.SimpleNamespace(supported_encodings=list(sup), request_encodings=req, _chunk_size=0, _http_connection=Conn(),
+                                     is_closed=lambda: False, _msg_reader=None, roundtrip_time=0)
+        try:
+            asyncio.run(soapclient_async.SoapClientAsync.async_post_message_to(fake, '/p', msg))
+        except Exception as ex:  # noqa: BLE001
+            bad.append({'key': 'async-client-raises', 'detail': f'request_encodings={req!r} supported={sup}: {ex!r}'})
+            continue
+        ce = sent.get('headers', {}).get('Content-Encoding')
+        acceptable = list(req) if isinstance(req, list) else spec_parse(req)
+        if ce is not None and (ce not in acceptable or ce not in sup):
+            bad.append({'key': 'async-client-coding-not-acceptable',
+                        'detail': f'request_encodings={req!r} (acceptable: {acceptable}) enabled={sup}: request sent with Content-Encoding {ce!r}'})
+        elif ce is not None and compression.CompressionHandler.decompress_payload(ce, sent['body']) != msg.serialize():
+            bad.append({'key': 'async-client-coding-roundtrip', 'detail': f'{ce}: sent body does not decode to the request'})
+    return cases, bad
+
+
 def live_configuration():
     """History: start the real http server with the owner's list of enabled codings, then change that list in place
     (what set_used_compression does) and send requests with Accept-Encoding: every response coding must be enabled
@@ -288,5 +340,6 @@ if __name__ == '__main__':
     c.run('C17.chunk_roundtrip', 'B', chunk_roundtrip, bound='11 bodies (0..65537 bytes, 4 MiB in thorough) x 11 chunk sizes: grammar check + de-chunk')
     c.run('C17.coding_roundtrip', 'B', coding_roundtrip, bound='every registered coding x 4 bodies x request/response x plain/chunked; corrupt and unknown codings')
     c.run('C17.live_configuration', 'B', live_configuration, bound='5 in-place changes of the enabled codings after server start x 3 Accept-Encoding headers')
+    c.run('C17.async_client_coding_choice', 'B', async_client_coding_choice, bound='10 request_encodings values (lists and raw Accept-Encoding headers with q-values) x 4 enabled lists on the real coroutine')
     c.run('C17.client_coding_choice', 'B', client_coding_choice, bound='7 x 7 request/supported encoding lists')
     c.emit()
